@@ -25,8 +25,13 @@ import (
 
 var errGeneric = errors.New("backend unavailable: connection reset by peer")
 
+// errors that are no sentinel either, but whose text talks about something "not found" (a DA node that
+// has not synced a height yet; an endpoint whose DA module is not registered)
+var errLagging = errors.New("header: not found")
+var errNoMethod = errors.New("method 'da.GetIDs' not found")
+
 var errNames = []string{"notfound", "toobig", "timedout", "mempool", "seq", "deadline", "future", "futurestr",
-	"canceled", "ctxcanceled", "ctxdeadline", "generic"}
+	"canceled", "ctxcanceled", "ctxdeadline", "generic", "lagging", "nomethod"}
 
 var wrapNames = []string{"", "pre", "post", "join", "deep", "cause-deadline", "join-deadline"}
 
@@ -54,6 +59,10 @@ func baseErr(name string) error {
 		return context.Canceled
 	case "ctxdeadline":
 		return context.DeadlineExceeded
+	case "lagging":
+		return errLagging
+	case "nomethod":
+		return errNoMethod
 	}
 	return errGeneric
 }
